@@ -8,7 +8,7 @@ from .. import observe as Ob
 from ..core import Outcome, exc_kind
 from . import c01
 
-FUZZ = {"quick": 0, "thorough": 3000}   # libFuzzer -runs per shard (slow target)
+FUZZ = {"quick": 0, "thorough": 2000}   # libFuzzer -runs per shard (slow target)
 ID = "C05"
 LEVEL = "fault_enumeration"
 TECHNIQUE = ("property-based testing (Hypothesis) with a whole-IR validity predicate (closure, block geometry, "
